@@ -123,7 +123,9 @@ def run_case(data):
         promised |= NORMALISATION_REASONS
     v2, reasons2 = H.conformance([(n, v) for n, v, _ in got], kind)
     broken = [x for x in reasons2 if x in promised] if v2 == H.BAD else []
-    if broken and not (mixed_types and broken == ['authority-host-mismatch']):
+    # (the Python string types of :authority and Host are a dont-care only for *refusing* a pair that agrees;
+    # a pair that disagrees on the wire must not be emitted however it was given)
+    if broken:
         r.violate('C14:non-conformant-emitted:%s' % broken[0], repr(got))
     return r
 
